@@ -8,9 +8,15 @@ exec > "$D/confirm.log" 2>&1
 set -x
 export OMP_WAIT_POLICY=passive
 NT=$(grep -m1 -o "OMP_NUM_THREADS=[0-9]*" "$D/demo.cpp" | cut -d= -f2); NT=${NT:-4}
+NP=$(grep -m1 -o "\-np [0-9]*" "$D/demo.cpp" | cut -d' ' -f2); NP=${NP:-4}
 run_demo() {  # $1 = label
-  (cd "$D" && rm -f demo && g++ -O2 -fopenmp -I$WT -I/usr/include/eigen3 demo.cpp -o demo) || { echo "DEMO-COMPILE-FAILED $1"; return 9; }
-  (cd "$D" && OMP_NUM_THREADS=$NT timeout 600 ./demo); echo "DEMO-RC $1 $?"
+  if grep -q "mpic++" "$D/demo.cpp"; then
+    (cd "$D" && rm -f demo && mpic++ -O2 -fopenmp -I$WT -I/usr/include/eigen3 demo.cpp -o demo) || { echo "DEMO-COMPILE-FAILED $1"; return 9; }
+    (cd "$D" && OMP_NUM_THREADS=1 timeout 900 mpirun --oversubscribe --allow-run-as-root -np $NP ./demo); echo "DEMO-RC $1 $?"
+  else
+    (cd "$D" && rm -f demo && g++ -O2 -fopenmp -I$WT -I/usr/include/eigen3 demo.cpp -o demo) || { echo "DEMO-COMPILE-FAILED $1"; return 9; }
+    (cd "$D" && OMP_NUM_THREADS=$NT timeout 600 ./demo); echo "DEMO-RC $1 $?"
+  fi
 }
 run_demo pristine
 git apply "$D/patch.diff" || { echo "PATCH-FAILED"; exit 3; }
